@@ -55,6 +55,10 @@ fn arb_params() -> impl Strategy<Value = SimParams> {
         })
 }
 
+fn arb_count() -> impl Strategy<Value = u32> {
+    prop_oneof![4 => 0u32..4, 1 => Just(100u32), 2 => 257u32..420]
+}
+
 fn arb_cmd(nrun: usize) -> impl Strategy<Value = Cmd> {
     prop_oneof![
         6 => (0..nrun.max(1)).prop_map(|i| Cmd::Run(i as u16)),
@@ -62,6 +66,13 @@ fn arb_cmd(nrun: usize) -> impl Strategy<Value = Cmd> {
         3 => (0u8..2, 0i32..NKEYS).prop_map(|(i, k)| Cmd::Upd { lane: i * 2 + 1, k, v: 0 }),
         1 => (0u8..2, 0i32..NKEYS).prop_map(|(i, k)| Cmd::Rem { lane: i * 2 + 1, k }),
         1 => (0u8..2).prop_map(|i| Cmd::Clr { lane: i * 2 + 1 }),
+        1 => (0u8..2, arb_count(), any::<bool>()).prop_map(|(i, n, drop)| {
+            if drop {
+                Cmd::Drop { lane: i * 2 + 1, n }
+            } else {
+                Cmd::Take { lane: i * 2 + 1, n }
+            }
+        }),
     ]
 }
 
@@ -119,6 +130,8 @@ fn cmd_wire(cmd: &Cmd) -> (&'static str, String) {
         Cmd::Upd { lane, k, v } => (LANE_NAMES[*lane as usize], format!("@update(key:{}) {}", k, v)),
         Cmd::Rem { lane, k } => (LANE_NAMES[*lane as usize], format!("@remove(key:{})", k)),
         Cmd::Clr { lane } => (LANE_NAMES[*lane as usize], "@clear".to_string()),
+        Cmd::Drop { lane, n } => (LANE_NAMES[*lane as usize], format!("@drop({})", n)),
+        Cmd::Take { lane, n } => (LANE_NAMES[*lane as usize], format!("@take({})", n)),
     }
 }
 
@@ -207,11 +220,17 @@ fn too_big(case: &Case) -> bool {
         if let COp::Send { cmd, .. } = op {
             match cmd {
                 Cmd::Run(i) => runs.push(*i),
+                // one removal per key: at most the 3 ordinary keys unless a burst filled the map
+                Cmd::Drop { n, .. } | Cmd::Take { n, .. } => {
+                    ext += if tables.has_burst() { 400 } else { (*n as usize).min(3).max(1) }
+                }
                 _ => ext += 1,
             }
         }
     }
-    worst_case_records(&tables, &runs, ext) > MAX_WORST_CASE
+    // cases with a burst (hundreds of changes in one handler) are allowed a longer trace
+    let limit = if tables.has_burst() { 8 * MAX_WORST_CASE } else { MAX_WORST_CASE };
+    worst_case_records(&tables, &runs, ext) > limit
 }
 
 fn check(case: &Case) -> Verdict {
@@ -324,6 +343,8 @@ fn check_tables(case: &Case, tables: &ast::Tables) -> Verdict {
     v.class_if(rep.overflow, "skipped:overflow");
     v.class_if(st.branches > 0, "branch");
     v.class_if(st.computed_mutations > 0, "computed-mutation");
+    v.class_if(st.transforms > 0, "transform_entry");
+    v.class_if(st.burst, "burst>=260-changes-in-one-handler");
     v.class_if(st.binds[0] > 0, "and_then");
     v.class_if(st.binds[1] > 0, "and_then_contextual");
     v.class_if(st.binds[2] > 0, "and_then_try");
